@@ -506,6 +506,15 @@ func stacks(t *testing.T) []*kvc.Stack {
 			return physKV{b}, func() { _ = os.RemoveAll(dir) }, nil
 		}
 		st.AfterOK = func(p, a string) bool { return true }
+		// one file per key: "_<last segment>" plus a ".temp" suffix while writing must fit NAME_MAX (255)
+		st.KeyOK = func(k string) bool {
+			for _, seg := range strings.Split(k, "/") {
+				if len(seg) > 249 {
+					return false
+				}
+			}
+			return true
+		}
 		out = append(out, st)
 	}
 	return out
